@@ -79,24 +79,40 @@ theorem own_trailers_clean (dec : Bytes → DetailsDec) (code : Nat) (msg : Byte
   have hl2 : lowerASCII (bs "grpc-message") = bs "grpc-message" := by decide
   have hl3 : lowerASCII (bs "grpc-status-details-bin") = bs "grpc-status-details-bin" := by decide
   have hblock : grpcWebStatusEndStream code msg detailsBin trailers =
-      renderPairs (((bs "grpc-status", decimal code) :: (bs "grpc-message", percentEncode msg) ::
+      renderPairs (((bs "grpc-status", 32 :: decimal code) :: (bs "grpc-message", 32 :: percentEncode msg) ::
         detPairs detailsBin)
         ++ pairsOf trailers) := by
     rw [grpcWebStatusEndStream, render_eq]
     congr 1
     cases detailsBin <;> simp [grpcStatusTrailers, pairsOf, hl1, hl2, hl3, detPairs]
   -- every pair is a clean line
-  have c1 : CleanPair (bs "grpc-status", decimal code) :=
-    ⟨reserved_clean.1.1, reserved_clean.1.2, by simpa [List.all_eq_true] using hdval⟩
-  have c2 : CleanPair (bs "grpc-message", percentEncode msg) :=
-    ⟨reserved_clean.2.1.1, reserved_clean.2.1.2, printable_value msg⟩
-  have c3 : ∀ d, detailsBin = some d → CleanPair (bs "grpc-status-details-bin", d) := by
+  have sp : isValueByte 32 = true := by decide
+  have c1 : CleanPair (bs "grpc-status", 32 :: decimal code) :=
+    ⟨reserved_clean.1.1, reserved_clean.1.2, by
+      intro b hb
+      simp only [List.mem_cons] at hb
+      rcases hb with rfl | hb
+      · exact sp
+      · exact (List.all_eq_true.1 hdval) b hb⟩
+  have c2 : CleanPair (bs "grpc-message", 32 :: percentEncode msg) :=
+    ⟨reserved_clean.2.1.1, reserved_clean.2.1.2, by
+      intro b hb
+      simp only [List.mem_cons] at hb
+      rcases hb with rfl | hb
+      · exact sp
+      · exact printable_value msg b hb⟩
+  have c3 : ∀ d, detailsBin = some d → CleanPair (bs "grpc-status-details-bin", 32 :: d) := by
     intro d hdd
     have := (hd d hdd).1
     simp only [cleanValue, Bool.and_eq_true, validFieldValue, List.all_eq_true] at this
-    exact ⟨reserved_clean.2.2.1, reserved_clean.2.2.2, this.1⟩
+    refine ⟨reserved_clean.2.2.1, reserved_clean.2.2.2, ?_⟩
+    intro b hb
+    simp only [List.mem_cons] at hb
+    rcases hb with rfl | hb
+    · exact sp
+    · exact this.1 b hb
   have hu := clean_user trailers ht
-  have hclean : ∀ p ∈ ((bs "grpc-status", decimal code) :: (bs "grpc-message", percentEncode msg) ::
+  have hclean : ∀ p ∈ ((bs "grpc-status", 32 :: decimal code) :: (bs "grpc-message", 32 :: percentEncode msg) ::
       detPairs detailsBin)
       ++ pairsOf trailers, CleanPair p := by
     intro p hp
@@ -135,17 +151,17 @@ theorem own_trailers_clean (dec : Bytes → DetailsDec) (code : Nat) (msg : Byte
   have hmsgtrim : trimWS (percentEncode msg) = percentEncode msg := by
     simp only [noEdgeSpace, Bool.and_eq_true, bne_iff_ne, ne_eq] at hm
     exact trimWS_id _ (encode_head msg hm.1) (encode_last msg hm.2)
-  have hS : hget (foldTr [] (((bs "grpc-status", decimal code) :: (bs "grpc-message", percentEncode msg) ::
+  have hS : hget (foldTr [] (((bs "grpc-status", 32 :: decimal code) :: (bs "grpc-message", 32 :: percentEncode msg) ::
         detPairs detailsBin)
         ++ pairsOf trailers)) kStatus = [decimal code] := by
     rw [hget_foldTr, List.filter_append, huser kStatus r1]
-    cases detailsBin <;> simp [hget, List.filter_cons, k11, k12, k13, hdtrim, detPairs]
-  have hM : hget (foldTr [] (((bs "grpc-status", decimal code) :: (bs "grpc-message", percentEncode msg) ::
+    cases detailsBin <;> simp [hget, List.filter_cons, k11, k12, k13, hdtrim, detPairs, trimWS_cons_space]
+  have hM : hget (foldTr [] (((bs "grpc-status", 32 :: decimal code) :: (bs "grpc-message", 32 :: percentEncode msg) ::
         detPairs detailsBin)
         ++ pairsOf trailers)) kMessage = [percentEncode msg] := by
     rw [hget_foldTr, List.filter_append, huser kMessage r2]
-    cases detailsBin <;> simp [hget, List.filter_cons, k21, k22, k23, hmsgtrim, detPairs]
-  have hD : hget (foldTr [] (((bs "grpc-status", decimal code) :: (bs "grpc-message", percentEncode msg) ::
+    cases detailsBin <;> simp [hget, List.filter_cons, k21, k22, k23, hmsgtrim, detPairs, trimWS_cons_space]
+  have hD : hget (foldTr [] (((bs "grpc-status", 32 :: decimal code) :: (bs "grpc-message", 32 :: percentEncode msg) ::
         detPairs detailsBin)
         ++ pairsOf trailers)) kDetails = detVals detailsBin := by
     rw [hget_foldTr, List.filter_append, huser kDetails r3]
@@ -154,7 +170,7 @@ theorem own_trailers_clean (dec : Bytes → DetailsDec) (code : Nat) (msg : Byte
     | some d =>
       have := (hd d hdb).1
       simp only [cleanValue, Bool.and_eq_true, beq_iff_eq] at this
-      simp [hget, List.filter_cons, k31, k32, k33, this.2, detPairs, detVals]
+      simp [hget, List.filter_cons, k31, k32, k33, this.2, detPairs, detVals, trimWS_cons_space]
   have hv := percent_validator_accepts msg
   have hr := percent_roundtrip msg
   have hcode0 : ¬ ((code : Int) < 0 ∨ (code : Int) > 16) := by omega
